@@ -1,5 +1,6 @@
 import XcmModel.Framing
 import XcmModel.Lemmas.Framing
+import XcmModel.Lemmas.Ux
 /-!
 # C01 — messaging transports deliver exactly the accepted messages, whole, in order
 
@@ -630,5 +631,36 @@ example :
     A.accepted = [[7, 8, 9]] ∧ A.env.tx = [0, 0, 0, 3, 7, 8, 9] ∧ B.arrived = A.env.tx ∧
       B.returned = [[7, 8, 9]] ∧ B.results = [.err EAGAIN, .err EAGAIN, .msg [7, 8, 9] [7, 8, 9]] := by
   decide
+
+
+/-! ## ux / uxf (xcm_tp_ux.c) over the kernel's record-preserving SEQPACKET socket -/
+
+/-- **C01 for ux/uxf.**  For every interleaving of sends (accepted, refused by the size checks or
+refused by the kernel with any errno), receives (with any capacity, EAGAIN or errors at will) and
+finishes: the payloads returned by successful receives are, in order, the leading `capacity` bytes of
+the messages whose send returned success, no more of them than were accepted, and what is not yet
+delivered is exactly what the kernel still queues (nothing lost, merged, duplicated or reordered).
+Relative to K-seqpacket (DESIGN §3.1): the kernel's queue is the FIFO `chan`. -/
+theorem C01_ux_exact_delivery (steps : List Ux.Step) :
+    let L := (({} : Ux.Link).run steps)
+    L.returned = List.zipWith (fun m c => m.take c) (L.accepted.take L.returned.length) L.caps
+    ∧ L.returned.length ≤ L.accepted.length
+    ∧ L.accepted = L.accepted.take L.returned.length ++ L.chan := by
+  intro L
+  have h : Ux.Inv L := Ux.inv_run steps _ Ux.inv_init
+  have hl : L.returned.length = L.fulls.length := by
+    rw [h.ret]; simp [h.len]
+  have ht : L.accepted.take L.returned.length = L.fulls := by
+    rw [hl, h.acc]; simp
+  refine ⟨?_, ?_, ?_⟩
+  · rw [ht]; exact h.ret
+  · rw [hl, h.acc]; simp
+  · rw [ht]; exact h.acc
+
+/-- non-vacuity: a truncated and a whole delivery with a refused send in between -/
+example :
+    let L := (({} : Ux.Link).run [.send [1,2,3] none, .send [9] (some 11), .recv 2 none, .send [4,5] none,
+                                   .recv 10 (some 11), .recv 10 none])
+    L.returned = [[1,2], [4,5]] ∧ L.accepted = [[1,2,3], [4,5]] ∧ L.chan = [] := by decide
 
 end XcmModel.C01
